@@ -63,6 +63,11 @@ def inputs(tier):
     for a, b in (('GLU', 'ACT'), ('ASP', 'ACT'), ('GLU', 'HIS'), ('TYR', 'CYS'), ('HIS', 'HIS')):
         for name in ('no-rows=OCO', 'no-rows=HIS+TYR', 'no-rows=ASP+GLU'):
             out.append(dict(src='corpus', d=corpus.pair_desc(a, b, 2.8, 'deep'), cfg=name))
+    # several conformations, the pair coupled in a later one only (the partner is moved away in the first model)
+    for a, b in (('GLU', 'GLU'), ('ASP', 'ASP'), ('GLU', 'HIS'), ('TYR', 'CYS'), ('ASP', 'GLU')):
+        for lvl in ('mid', 'deep'):
+            for order in ('apart-first', 'apart-second'):
+                out.append(dict(src='models-coupled', d=corpus.pair_desc(a, b, 2.8, lvl), order=order))
     # the request for alternative states in an earlier calculation of the same process must not carry over
     for ci in coupled_inputs:
         for pj in (0, 2):
@@ -117,6 +122,18 @@ def cfg_opts(case):
 
 def build(inp, seed):
     s = corpus.build(inp['d'], seed)
+    if inp['src'] == 'models-coupled':
+        def moved(items):
+            out = []
+            for it in items:
+                if not isinstance(it, str) and it.chain == 'B':
+                    it = it.clone()
+                    it.x, it.y, it.z = it.x + 2500, it.y + 2000, it.z + 1500
+                out.append(it if isinstance(it, str) else it.clone())
+            return out
+        same = [i.clone() if not isinstance(i, str) else i for i in s.items]
+        m1, m2 = (moved(s.items), same) if inp['order'] == 'apart-first' else (same, moved(s.items))
+        return gen.S(['MODEL        1\n'] + m1 + ['ENDMDL\n', 'MODEL        2\n'] + m2 + ['ENDMDL\n']).renumber_serials()
     if inp['src'] == 'samelabel':
         # parts 2 and 3 (chains B and C) get the same chain id; protein fragments also the same numbers, told apart by an insertion code
         for a in s.atoms:
@@ -186,6 +203,13 @@ def run_case(case, ctx, acc):
             for p in g['coupled']:
                 if p in by and g['key'] not in by[p]['coupled']:
                     v.append(('coupling-asymmetric', '%s: %s lists %s but not vice versa' % (name, g['key'], p)))
+    # (2b) the partners of a group are groups of its own conformation (object identity, not label)
+    for name in m_on.conformation_names:
+        own = {id(g) for g in m_on.conformations[name].groups}
+        for g in m_on.conformations[name].groups:
+            for p_ in g.non_covalently_coupled_groups:
+                if id(p_) not in own:
+                    v.append(('coupled-partner-of-another-conformation', '%s: %s lists %s, which is not a group of this conformation' % (name, g.label, p_.label)))
     # (3) stars
     params = m_on.version.parameters
     for name in r_on['conformations'] + ['AVR']:
